@@ -378,6 +378,27 @@ def samples(info, res_ok):
     return out
 
 
+MUX_MC = """---- MODULE MCMux ----
+EXTENDS Mux
+MatchesDef == {<<"a/+", "a/b">>, <<"a/+", "a/c">>, <<"#", "a/b">>, <<"#", "a/c">>, <<"#", "x">>, <<"a/b", "a/b">>}
+====
+"""
+
+
+def mux_model(tier):
+    """spec/Mux.tla: registration between dispatches and overlapping dispatches; both wrong implementations refuted."""
+    def cfg(cache, shared, serves):
+        return ("SPECIFICATION Spec\nCONSTANTS\n Filters = {\"a/+\", \"#\", \"a/b\"}\n Topics = {\"a/b\", \"a/c\", \"x\"}\n Matches <- MatchesDef\n"
+                " MaxRegs = 3\n MaxServes = %d\n Procs = {p1, p2}\n BugRouteCache = %s\n BugSharedTopic = %s\nCHECK_DEADLOCK FALSE\n"
+                "INVARIANTS DispatchExact NoForeignHandler\n" % (serves, cache, shared))
+    r = vlib.tlc_ok(vlib.tlc("MCMux", cfg="ok.cfg", files={"MCMux.tla": MUX_MC, "ok.cfg": cfg("FALSE", "FALSE", 2 if tier == "quick" else 3)}, workers=4, timeout=600), "Mux model")
+    for name, c, sh, inv in (("BugRouteCache", "TRUE", "FALSE", "DispatchExact"), ("BugSharedTopic", "FALSE", "TRUE", "NoForeignHandler")):
+        rb = vlib.tlc("MCMux", cfg="b.cfg", files={"MCMux.tla": MUX_MC, "b.cfg": cfg(c, sh, 3)}, workers=1, timeout=300)
+        if rb.violated != inv:
+            raise vlib.Infra("non-vacuity: Mux with %s not refuted (%s)" % (name, rb.violated))
+    return r
+
+
 def run(tier):
     t0 = time.time()
     b = TIERS[tier]
@@ -389,9 +410,11 @@ def run(tier):
         fb = ex.submit(vlib.build_harness)
         futs = {ph: ex.submit(run_phase, ph, b, {"rand_in.ndjson": rand_text} if ph == "random" else None)
                 for ph in ("table", "lemmas", "mux", "random")}
+        fm = ex.submit(mux_model, tier)
         binary = fb.result()
         for ph, f in futs.items():
             out[ph] = f.result()
+        rmux = fm.result()
     t_tlc = time.time() - t0
     scs, info = build_scenarios(tier, b, out)
     res = execute(binary, scs)
@@ -424,6 +447,7 @@ def run(tier):
         "disagreements": tot["nmism"], "disagreements_by_kind": per_kind,
         "lemmas_checked_by_tlc": lem["n"], "lemma_space": {"filters": lem["f"], "valid": lem["v"], "topics": lem["t"], "depth": b["lemma"]},
         "depth": b["depth"], "mux_len": b["muxlen"], "mux_pool_sequences": out["mux"][1]["muxes"], "mux_topics": out["mux"][1]["topics"],
+        "mux_history_model_states": rmux.states, "mux_history_model": "spec/Mux.tla: 3 filters x 3 topics, <=3 registrations interleaved with <=2/3 dispatches of 2 goroutines; route cache and shared topic buffer refuted",
         "exhaustive": True,
         "exhaustive_scope": "all %d filters x %d topic names over the level alphabets up to %d levels; all registration sequences of length <= %d "
                             "over the 11-filter pool; the random strings are a sample" % (cov["table_filters"], cov["table_topics"], b["depth"], b["muxlen"]),
